@@ -179,7 +179,12 @@ def build_rows(tier, seed):
         rows.append(row_enc(enc.VSTR, chr(c) + "x"))
         rows.append(row_dec(enc.VSTR, bytes([c, 0x78])))
     step = 257 if tier == "quick" else 13
-    for c in range(0, 0x10000, step):
+    special = [0xFEFF, 0xFFFE, 0xFFFF, 0xFFFD, 0xD7FF, 0xE000, 0x7F, 0x80, 0xFF, 0x100, 0x2028, 0x0A, 0x0D, 0x1A]
+    for c in special:      # byte-order marks and other code points decoders treat specially, first and last
+        for s in (chr(c) + "ab", "ab" + chr(c), chr(c) * 2 + "x"):
+            rows.append(row_enc(enc.USTR, s))
+            rows.append(row_dec(enc.USTR, s.encode("utf_16_le")))
+    for c in list(range(0, 0x10000, step)) + special:
         if 0xD800 <= c <= 0xDFFF:
             continue
         rows.append(row_enc(enc.USTR, chr(c) + "x"))
